@@ -533,6 +533,8 @@ def get_attribute(I, o, name, default=_NOCONST):
     elif isinstance(o, VPath):
         from . import fsmodel
         r = fsmodel.path_attr(I, o, name)
+        if r is not None:
+            return r
     elif isinstance(o, JM.VJson):
         if name in MAP_METHODS:
             # dict methods on a dynamically typed value: its dict content (the caller has checked isinstance(v, dict))
@@ -1970,8 +1972,14 @@ def str_method(I, s, name, args, kw):
         if not known and not isinstance(enc, VStr):
             raise Unsupported("str.encode with a non-string codec")
         utf8 = z3.BoolVal(True) if known else z3.Or(enc.e == z3.StringVal("utf-8"), enc.e == z3.StringVal("utf8"))
+        errs = args[1] if len(args) > 1 else kw.get("errors")
+        lenient = errs is not None and const_of(errs) in ("backslashreplace", "replace", "ignore", "surrogatepass",
+                                                          "xmlcharrefreplace", "namereplace")
+        if lenient:
+            I.ver.note_assumption("str.encode(..., errors=<lenient handler>) never raises UnicodeEncodeError; the bytes are "
+                                  "modelled as the text itself (exact except for unencodable characters)")
         if not I.spec:
-            if I.path.choice():
+            if not lenient and I.path.choice():
                 I.raise_exc("UnicodeEncodeError", "codec can't encode character")
             if not known:
                 if I.path.choice():
